@@ -11,7 +11,7 @@ for id in "${ids[@]}"; do
     *) checks="$P" ;;
   esac
   for c in $checks; do
-    line=$(tools/run_seed_wt.sh seeded/$id/patch.diff $c 2>&1 | head -1 | cut -c1-200)
+    line=$(tools/run_seed_wt.sh /verif/seeded/$id/patch.diff $c 2>&1 | head -1 | cut -c1-200)
     echo "$id -> $line"
   done
 done
